@@ -195,7 +195,7 @@ def judge (_id : String) (lines : Array String) : Verdict := Id.run do
   let some n := nT.toNat? | return .badop l
   let kinds := Kind.pass :: toks.map (·.kind)
   let input : Input := { chain := toks.map (·.shape), stop := stop, cls := cls, n := n }
-  let cfg : Cfg := { cap := edgeCap, viaClose := stop == .close, hookLock := false }
+  let cfg : Cfg := { cap := edgeCap, viaClose := stop == .close, hookLock := false, alertLeak := false }
   -- model predictions for this class
   let pS := simulate cfg kinds cls n 0
   let pP := simulate cfg kinds cls n 1
